@@ -347,6 +347,11 @@ def as_val(cx, v, st):
         return cx.ref_val(v)
     if isinstance(v, VFunc) and getattr(v, "val", None) is not None:
         return v.val
+    if isinstance(v, VFunc) and v.kind in ("lambda", "bound", "repo", "opaque", "builtin"):
+        toks = cx.__dict__.setdefault("_func_vals", {})
+        if id(v) not in toks:
+            toks[id(v)] = (v, z3.Const("callable!%d" % len(toks), Val))
+        return toks[id(v)][1]
     if isinstance(v, VStr) and v.t is not None:
         return cx.box_str(v.t)
     if isinstance(v, VTuple):
